@@ -1,6 +1,6 @@
 """C04 - names resolve through scopes, module, imports, context, builtins, UNDEFINED.
 
-Engine E1.  Four exhaustively enumerated families, each case executed on the
+Engine E1.  Five exhaustively enumerated families, each case executed on the
 real Template / TemplateLookup and compared with an independent oracle:
 
   res       binding-site subsets x read sites x read styles x strict_undefined:
@@ -10,6 +10,10 @@ real Template / TemplateLookup and compared with an independent oracle:
             free, the documented order resolves the free names)
   stmt      every Python statement form of a stated list inside <% %>, compared
             with the same statements executed natively (same reference)
+  reread    every form that binds a name in an inner scope only (lambda / def parameters of every kind,
+            function locals, comprehension variables inside a lambda / def) followed or preceded by a free
+            read of the SAME name in the same piece of Python (<% %> block, ${} expression, control line,
+            tag attribute), name present in / absent from the context, strict on/off; same reference
   reserved  reserved names x render entry points, x assignment forms x scopes x
             enable_loop configurations: NameConflictError demanded
   kwargs    context.kwargs at every kind of position x entry points
@@ -48,14 +52,17 @@ BOUNDS = {
     "quick": {
         "res": "all subsets of <=2 of the 8 binding sites x {plain, builtin} name x 15 read sites x styles {value, or-default, call} x strict on/off; "
                "+ re-assignment variant for every subset holding a body assignment",
-        "stmt": "%d statement forms x placement {body, top-level def} x context {r, r+b, neither} x strict on/off" % 49,
+        "stmt": "48 statement forms x placement {body, top-level def} x context {r, r+b, neither} x strict on/off",
+        "reread": "16 expression binders x pieces {block later statement, block same statement, ${} expression, control line, tag attribute} x read "
+                  "{after, before} + 23 statement binders x {after, before}; x container {body, top-level def} x name {present, absent} x strict on/off",
         "reserved": "4 names x 6 entry points x 3 enable_loop configurations; 4 names x 15 assignment forms x 3 scopes x 3 configurations",
         "kwargs": "10 positions x 4 entry points x 3 argument sets",
     },
     "thorough": {
         "res": "all 256 subsets of the 8 binding sites x {plain, builtin} x 15 read sites x 3 styles x strict on/off x binding statement "
                "{before, after} the read for body/enclosing assignments x re-assignment variant",
-        "stmt": "%d statement forms x placement {body, top-level def, nested def, anonymous block, call body} x context {r, r+b, neither} x strict on/off" % 49,
+        "stmt": "48 statement forms x placement {body, top-level def, nested def, anonymous block, call body} x context {r, r+b, neither} x strict on/off",
+        "reread": "as quick x container {body, top-level def, nested def, anonymous block, call body}",
         "reserved": "as quick + 5 scopes",
         "kwargs": "as quick",
     },
@@ -78,7 +85,8 @@ LEVEL_NOTE = (
 RULE = (
     "res: one program per (set of simultaneously present binding sites, plain|builtin name, read site, read style, strict flag[, position, "
     "re-assignment]); canonical = printed template text(s) + context keys + strict flag, de-duplicated. stmt: one program per (statement "
-    "form, placement, context variant, strict flag). reserved/kwargs: one case per grid cell. Non-trivial = at least two sources for the "
+    "form, placement, context variant, strict flag). reread: one program per (inner-scope binder, piece of Python, read before|after, container, "
+    "name present|absent, strict flag). reserved/kwargs: one case per grid cell. Non-trivial = at least two sources for the "
     "name are present at once (precedence is observable), or the statement form binds and reads different names, or a reserved name meets "
     "an entry point / assignment form."
 )
@@ -419,6 +427,131 @@ def stmt_params(tier):
 
 
 # --------------------------------------------------------------------------
+# family reread: a name bound in an inner scope only, then read as a free name later in the same piece of Python
+
+# expression binders: {n} is bound only inside the lambda / comprehension written in the expression.
+# flag "braces": the expression contains { } and is used inside <% %> blocks only (brace matching of ${ } is C02/C19)
+REREAD_EXPRS = [
+    ("lambda.positional", "(lambda {n}: {n} + '!')('a')", ""),
+    ("lambda.positional-only", "(lambda {n}, /: {n} + '!')('a')", ""),
+    ("lambda.default", "(lambda {n}='d': {n} + '!')()", ""),
+    ("lambda.second-parameter", "(lambda p, {n}: p + {n})('a', 'b')", ""),
+    ("lambda.vararg", "(lambda *{n}: ''.join({n}))('a', 'b')", ""),
+    ("lambda.keyword-only", "(lambda *, {n}: {n} + '!')({n}='a')", ""),
+    ("lambda.keyword-only-default", "(lambda *, {n}='d': {n} + '!')()", ""),
+    ("lambda.kwarg", "(lambda **{n}: ''.join(sorted({n})))(a='1', b='2')", ""),
+    ("lambda.nested-inner-parameter", "(lambda p: (lambda {n}: {n} + p)('b'))('a')", ""),
+    ("lambda.nested-outer-parameter", "(lambda {n}: (lambda p: {n} + p)('b'))('a')", ""),
+    ("lambda.walrus-local", "(lambda p: ({n} := p + '!'))('a')", ""),
+    ("lambda.comprehension-variable", "(lambda p: [{n} + '!' for {n} in [p]])('a')[0]", ""),
+    ("lambda.generator-variable", "(lambda p: ''.join({n} for {n} in [p, p]))('a')", ""),
+    ("lambda.set-comprehension-variable", "(lambda p: sorted({{{n} for {n} in [p]}}))('a')[0]", "braces"),
+    ("lambda.dict-comprehension-variable", "(lambda p: sorted({{{n}: 1 for {n} in [p]}}))('a')[0]", "braces"),
+    ("lambda.two-in-a-row", "(lambda {n}: {n})('a') + (lambda p: p)('b')", ""),
+]
+# statement binders (inside <% %> only): {n} is a parameter / local of a function or class written in the block; zq = its result
+REREAD_STMTS = [
+    ("def.positional", "def zf({n}):\n    return {n} + '!'\nzq = zf('a')"),
+    ("def.positional-only", "def zf({n}, /):\n    return {n} + '!'\nzq = zf('a')"),
+    ("def.default", "def zf({n}='d'):\n    return {n} + '!'\nzq = zf()"),
+    ("def.vararg", "def zf(*{n}):\n    return ''.join({n})\nzq = zf('a', 'b')"),
+    ("def.keyword-only", "def zf(*, {n}):\n    return {n} + '!'\nzq = zf({n}='a')"),
+    ("def.kwarg", "def zf(**{n}):\n    return ''.join(sorted({n}))\nzq = zf(a='1')"),
+    ("def.local", "def zf():\n    {n} = 'i'\n    return {n}\nzq = zf()"),
+    ("def.local-tuple-target", "def zf():\n    {n}, zp = 'i', 'j'\n    return {n} + zp\nzq = zf()"),
+    ("def.local-walrus", "def zf():\n    return ({n} := 'i')\nzq = zf()"),
+    ("def.local-for-target", "def zf():\n    for {n} in ['i']:\n        pass\n    return {n}\nzq = zf()"),
+    ("def.local-with-as", "def zf():\n    with cm('i') as {n}:\n        return {n}\nzq = zf()"),
+    ("def.local-except-as", "def zf():\n    try:\n        raise ValueError('i')\n    except ValueError as {n}:\n        return {n}.args[0]\nzq = zf()"),
+    ("def.local-import-as", "def zf():\n    import os.path as {n}\n    return {n}.sep\nzq = zf()"),
+    ("def.local-nested-def", "def zf():\n    def {n}():\n        return 'i'\n    return {n}()\nzq = zf()"),
+    ("def.local-class", "def zf():\n    class {n}:\n        v = 'i'\n    return {n}.v\nzq = zf()"),
+    ("def.comprehension-variable", "def zf(p):\n    return [{n} + '!' for {n} in [p]][0]\nzq = zf('a')"),
+    ("def.inner-lambda-parameter", "def zf(p):\n    return (lambda {n}: {n} + p)('b')\nzq = zf('a')"),
+    ("def.nested-def-parameter", "def zf(p):\n    def zg({n}):\n        return {n} + p\n    return zg('b')\nzq = zf('a')"),
+    ("def.two-in-a-row", "def zf({n}):\n    return {n}\ndef zg(p):\n    return p\nzq = zf('a') + zg('b')"),
+    ("class.method-parameter", "class zc:\n    def m(self, {n}):\n        return {n} + '!'\nzq = zc().m('a')"),
+    ("class.method-local", "class zc:\n    def m(self):\n        {n} = 'i'\n        return {n}\nzq = zc().m()"),
+    ("lambda-assigned.parameter", "zf = lambda {n}: {n} + '!'\nzq = zf('a')"),
+    ("lambda-assigned.star-parameters", "zf = lambda *{n}, **zp: ''.join({n})\nzq = zf('a')"),
+]
+REREAD_PIECES = ["block-later-statement", "block-same-statement", "expression", "control-line", "tag-attribute"]
+REREAD_CONTAINERS_Q = ["body", "def"]
+REREAD_CONTAINERS_T = ["body", "def", "nested", "anon", "callbody"]
+
+
+def reread_params(tier):
+    conts = REREAD_CONTAINERS_Q if tier == "quick" else REREAD_CONTAINERS_T
+    for cont in conts:
+        for present in (True, False):
+            for label, _e, flag in REREAD_EXPRS:
+                for piece in REREAD_PIECES:
+                    if flag == "braces" and not piece.startswith("block"):
+                        continue
+                    for order in (("after",) if piece == "block-later-statement" else ("after", "before")):
+                        yield {"form": label, "piece": piece, "order": order, "container": cont, "present": present}
+            for label, _c in REREAD_STMTS:
+                for order in ("after", "before"):
+                    yield {"form": label, "piece": "block-later-statement", "order": order, "container": cont, "present": present}
+
+
+def build_reread(al, p):
+    n = al.name
+    label, piece, order = p["form"], p["piece"], p["order"]
+    ex = [f for f in REREAD_EXPRS if f[0] == label]
+    defs = []
+    if ex:
+        b = ex[0][1].format(n=n)
+        two = ("sh(%s)" % b, "sh(%s)" % n) if order == "after" else ("sh(%s)" % n, "sh(%s)" % b)
+        if piece == "block-later-statement":
+            stmts = [["code", "zq = %s\nzr = %s" % (b, n)], T("["), E("sh(zq)"), T("]("), E("sh(zr)"), T(")")]
+        elif piece == "block-same-statement":
+            stmts = [["code", "zq = %s + '+' + %s" % two], T("["), E("zq"), T("]")]
+        elif piece == "expression":
+            stmts = [T("["), E("%s + '+' + %s" % two), T("]")]
+        elif piece == "control-line":
+            stmts = [["ctl", [["for it in [%s, %s]:" % two, [T("("), E("it"), T(")")]]], "endfor"]]
+        elif piece == "tag-attribute":
+            stmts = [["nscall", "self", "show", [["v", "%s + '+' + %s" % two]], []]]
+            defs.append(["def", "show", "v", [T("["), E("v"), T("]")]])
+        else:
+            raise ValueError(piece)
+    else:
+        code = [f for f in REREAD_STMTS if f[0] == label][0][1].format(n=n)
+        if order == "after":
+            code = code + "\nzr = %s" % n
+        else:
+            code = "zr = %s\n" % n + code
+        stmts = [["code", code], T("["), E("sh(zq)"), T("]("), E("sh(zr)"), T(")")]
+    cont = p["container"]
+    if cont == "body":
+        body = stmts
+    elif cont == "def":
+        defs.append(["def", "f", "", stmts])
+        body = [E("f()")]
+    elif cont == "nested":
+        defs.append(["def", "f", "", [["def", "inner", "", stmts], E("inner()")]])
+        body = [E("f()")]
+    elif cont == "anon":
+        body = [["block", None, stmts]]
+    elif cont == "callbody":
+        defs.append(["def", "w", "", [E("caller.body()")]])
+        body = [["call", "w()", None, stmts]]
+    else:
+        raise ValueError(cont)
+    ctx = {"sh": "@helper:show", "cm": "@helper:cm"}
+    if p["present"]:
+        ctx[n] = "CB" + al.sfx
+    return {"files": {"main.html": {"body": body + defs}}, "main": "main.html"}, ctx
+
+
+def _reread_symptom(al, exp, obs):
+    if obs[0] == "exc" and obs[1] == "NameError" and al.name in _quoted(obs[2]):
+        return "NameError(inner-scope-name)"
+    return "exp=%s:obs=%s" % (exp[1] if exp[0] == "exc" else "out", obs[1] if obs[0] == "exc" else "out")
+
+
+# --------------------------------------------------------------------------
 # running a program on mako
 
 
@@ -528,6 +661,8 @@ def _stmt_symptom(al, p, exp, obs):
 def check_program(al, fam, p, strict, st):
     if fam == "res":
         prog, ctxspec = build_res(al, p)
+    elif fam == "reread":
+        prog, ctxspec = build_reread(al, p)
     else:
         prog, ctxspec = build_stmt(al, p)
     prog = ir.normalize(prog)
@@ -557,6 +692,8 @@ def check_program(al, fam, p, strict, st):
     for what, e_, o_ in viol:
         if fam == "res":
             sig = "res:%s:exp=%s:obs=%s" % (SITE_KIND[p["site"]], we, _winner(al, o_))
+        elif fam == "reread":
+            sig = "reread:%s:%s" % (p["form"], _reread_symptom(al, e_, o_))
         else:
             sig = "stmt:%s:%s" % (p["form"], _stmt_symptom(al, p, e_, o_))
         if what != "render_unicode":
@@ -821,6 +958,7 @@ def plan(tier, seed):
     n = core.NPROC * 2
     jobs = [{"kind": "res", "tier": tier, "seed": seed, "shard": i, "nshards": n} for i in range(n)]
     jobs += [{"kind": "stmt", "tier": tier, "seed": seed, "shard": i, "nshards": 4} for i in range(4)]
+    jobs += [{"kind": "reread", "tier": tier, "seed": seed, "shard": i, "nshards": 4} for i in range(4)]
     jobs.append({"kind": "reserved", "tier": tier, "seed": seed})
     jobs.append({"kind": "kwargs", "tier": tier, "seed": seed})
     return jobs
@@ -843,8 +981,8 @@ def run_job(job):
 def _run_job(job, st):
     al = Alpha(job["seed"])
     kind = job["kind"]
-    if kind in ("res", "stmt"):
-        gen = res_params(job["tier"]) if kind == "res" else stmt_params(job["tier"])
+    if kind in ("res", "stmt", "reread"):
+        gen = {"res": res_params, "stmt": stmt_params, "reread": reread_params}[kind](job["tier"])
         seen = set()
         for i, p in enumerate(gen):
             if i % job["nshards"] != job["shard"]:
@@ -881,7 +1019,7 @@ def _run_job(job, st):
 
 def post(tier, seed, st):
     walls = st.extra.pop("job_walls", [])
-    for k in ("res", "stmt", "reserved", "kwargs"):
+    for k in ("res", "stmt", "reread", "reserved", "kwargs"):
         st.extra.pop("job_wall_max_s_" + k, None)
     st.extra["slowest_job_wall_s"] = max([w[2] for w in walls] or [0])
     st.extra["alphabet"] = {k: v for k, v in Alpha(seed).__dict__.items()}
@@ -893,7 +1031,7 @@ def post(tier, seed, st):
 def replay(case):
     st = Stats()
     fam = case["fam"]
-    if fam in ("res", "stmt"):
+    if fam in ("res", "stmt", "reread"):
         check_program(Alpha(case["seed"]), fam, case["p"], case["strict"], st)
     elif fam == "reserved":
         check_reserved(case["c"], st)
